@@ -98,10 +98,11 @@ def inventory_labels(b, api) -> list[str]:
     for e in d["enums"]:
         for i in e["instances"]:
             ref("enum_instances", i, "enum.instances")
+    construct = {e["id"]: e.get("construct", "") for e in b.expect}
     for key in ("classes", "functions", "results", "enums", "enum_instances", "attributes", "parameters"):
         for i in ids[key]:
             if refs.get(i, 0) != 1:
-                labels.append(f"c12:not-referenced-by-exactly-one-owner:{key}")
+                labels.append(f"c12:not-referenced-by-exactly-one-owner:{key}" + (f":{construct[i]}" if construct.get(i) else ""))
     # nothing registered that the source does not contain
     want = {e["id"] for e in b.expect}
     for key in ("classes", "functions", "enums", "enum_instances", "attributes"):
@@ -147,7 +148,7 @@ def inventory(sel: List[int]) -> bool:
     pre: len(sel) == SEL_LEN and fixed(sel)
     post: _
     """
-    return run(sel, ("c12:",))
+    return run(sel, ("c12:", "c03:declaration-not-registered"))  # completeness of the inventory is part of C12 as well
 
 
 def CANDIDATES(func: str):
